@@ -1,7 +1,7 @@
 (* Decision-table theorems for the "crypto" plugin family (Plugins/Crypto.v). *)
 From Coq Require Import List NArith ZArith Bool String Lia.
-From Bandit Require Import Base.PyStr Ast.Node Engine.Types Engine.Resolve Engine.Context Engine.Scan
-     Plugins.Crypto Proofs.PyStrFacts.
+From Bandit Require Import Base.PyStr Ast.Node Engine.Types Engine.Resolve Engine.Context Engine.Visitor
+     Engine.Scan Plugins.Crypto Proofs.PyStrFacts.
 Import ListNotations.
 Local Open Scope string_scope.
 Local Open Scope list_scope.
@@ -78,7 +78,7 @@ Theorem keysize_classify cfg dh dm rh rm eh em kt k :
       else if (k <? pick kt dm rm em)%Z then Some (key_issue kt MEDIUM (JInt (pick kt dm rm em)))
       else None).
 Proof.
-  intro H. unfold classify_key_size. rewrite (thresholds_int _ _ _ _ _ _ _ kt H).
+  intro H. unfold classify_key_size. cbn [is_number]. rewrite (thresholds_int _ _ _ _ _ _ _ kt H).
   cbn [bind fst snd]. unfold lt_threshold. cbn [thr_num bind].
   destruct (k <? pick kt dh rh eh)%Z; [reflexivity|].
   destruct (k <? pick kt dm rm em)%Z; reflexivity.
@@ -221,14 +221,12 @@ Proof. reflexivity. Qed.
 
 (* every curve of the table is classified with the size the table (= the Python dict) gives it *)
 Theorem curve_table_inst :
-  forall name size, In (name, size) curve_table -> curve_size (Some (PStr (s2p name))) = Ok size.
+  forall name size, In (name, size) curve_table -> curve_size (Some (PStr (s2p name))) = size.
 Proof.
-  assert (H : forallb (fun kv => match curve_size (Some (PStr (s2p (fst kv)))) with
-                                 | Ok z => Z.eqb z (snd kv)
-                                 | Raise _ => false
-                                 end) curve_table = true) by (vm_compute; reflexivity).
+  assert (H : forallb (fun kv => Z.eqb (curve_size (Some (PStr (s2p (fst kv))))) (snd kv)) curve_table = true)
+    by (vm_compute; reflexivity).
   rewrite forallb_forall in H. intros name size Hin. specialize (H _ Hin). cbn [fst snd] in H.
-  destruct (curve_size _) as [z|e]; [|discriminate]. apply Z.eqb_eq in H. congruence.
+  apply Z.eqb_eq in H. exact H.
 Qed.
 
 Example curve_table_inst_ex : In ("SECT571R1", 570%Z) curve_table /\ In ("SECP192R1", 192%Z) curve_table.
@@ -251,8 +249,13 @@ Proof.
 Qed.
 
 Lemma curve_unknown_default s :
-  assoc s curve_key_sizes = None -> curve_size (Some (PStr s)) = Ok 224%Z.
-Proof. intro H. unfold curve_size. cbn [hashable]. rewrite H. reflexivity. Qed.
+  assoc s curve_key_sizes = None -> curve_size (Some (PStr s)) = 224%Z.
+Proof. intro H. unfold curve_size. rewrite H. reflexivity. Qed.
+
+(* only a str is looked up: every other value (and the Python False of a call without arguments) gives 224 *)
+Lemma curve_non_str_default v :
+  (forall s, v <> Some (PStr s)) -> curve_size v = 224%Z.
+Proof. intro H. destruct v as [[]|]; try reflexivity. exfalso. eapply H. reflexivity. Qed.
 
 (* EC keys: a curve given as the keyword (attribute, name or string) is classified by its table size *)
 Definition ec_q : pstr := s2p "cryptography.hazmat.primitives.asymmetric.ec.generate_private_key".
@@ -269,7 +272,7 @@ Proof.
   change (assoc ec_q cryptography_io_funcs) with (Some EC).
   change (assoc ec_q pycrypto_funcs) with (@None key_type).
   unfold ec_curve. rewrite Hv. cbn [bind truthy truthy_str].
-  destruct s as [|x s]; [contradiction|]. cbn [bind curve_size hashable]. apply bind_id.
+  destruct s as [|x s]; [contradiction|]. cbn [bind curve_size]. apply bind_id.
 Qed.
 
 Example ec_curve_keyword_ex :
@@ -797,4 +800,408 @@ Example crypto_secure_variant_silent_ex :
   ssh_no_host_key_verification (ex_hostkey_ctx (ex_attr (ex_name "paramiko") "RejectPolicy")) = Ok None /\
   snmp_crypto_check (ex_ctx [] "pysnmp.hlapi.UsmUserData"
                             (ex_call (ex_name "UsmUserData") [ex_name "u"; ex_name "a"; ex_name "p"] [])) = Ok None.
+Proof. repeat split; reflexivity. Qed.
+
+(* ------------------------------------------------------------------------------------------------ *)
+(* Totality: which checks can still raise                                                            *)
+(* ------------------------------------------------------------------------------------------------ *)
+(* Since Context._get_literal_value skips unhashable set elements (e3b31e7), no Context accessor raises
+   any more; what is left are the configuration look-ups, the threshold comparison, and attribute
+   accesses that the visitor's contexts always satisfy. *)
+
+Definition total {A} (r : res A) : Prop := exists a, r = Ok a.
+
+Lemma mapM_total {A B} (f : A -> res B) l : Forall (fun x => total (f x)) l -> total (mapM f l).
+Proof.
+  induction 1 as [|x l [y Hy] _ [ys Hys]]; [eexists; reflexivity|].
+  cbn [mapM]. rewrite Hy, Hys. eexists; reflexivity.
+Qed.
+
+Lemma literal_value_total n : total (literal_value n).
+Proof.
+  enough (H : total (literal_value n) /\
+              forall its, n = NList its -> Forall (fun i => total (literal_value i)) its) by apply H.
+  induction n as [c p fs IH | l IH | | | |] using node_ind';
+    try (split; [eexists; reflexivity | intros its E; discriminate E]).
+  - split; [|intros its E; discriminate E].
+    cbn [literal_value].
+    assert (Hf : total ((fix find (l : list (string * node)) : res (list pyval) :=
+          match l with
+          | [] => Ok []
+          | (k, v) :: t =>
+              if "elts" =? k
+              then
+               match v with
+               | NList its =>
+                   (fix go (is : list node) : res (list pyval) :=
+                      match is with
+                      | [] => Ok []
+                      | i :: is' =>
+                          do x <- literal_value i;;
+                          do xs <- go is';; Ok (x :: xs)
+                      end) its
+               | _ => Ok []
+               end
+              else find t
+          end) fs)).
+    { induction IH as [|[k v] t [_ Hv] _ IHt]; [eexists; reflexivity|].
+      cbn [snd] in Hv. destruct ("elts" =? k); [|exact IHt].
+      destruct v as [| its | | | |]; try (eexists; reflexivity).
+      specialize (Hv its eq_refl).
+      induction Hv as [|i its' [x Hx] _ [xs Hxs]]; [eexists; reflexivity|].
+      rewrite Hx. cbn [bind]. rewrite Hxs. eexists; reflexivity. }
+    destruct Hf as [l Hl]. rewrite Hl. cbn [bind].
+    destruct (c =? "Constant").
+    { destruct (lookup_field "value" fs) as [[]|]; eexists; reflexivity. }
+    destruct (c =? "List"); [eexists; reflexivity|].
+    destruct (c =? "Tuple"); [eexists; reflexivity|].
+    destruct (c =? "Set").
+    { clear Hl. generalize (@nil pyval). induction l as [|v l IHl]; intro acc; [eexists; reflexivity|].
+      simpl. destruct (hashable v); apply IHl. }
+    destruct (c =? "Dict"); [eexists; reflexivity|].
+    destruct (c =? "Name"); eexists; reflexivity.
+  - split; [eexists; reflexivity|]. intros its E. inversion E; subst its.
+    eapply Forall_impl; [|exact IH]. intros a [Ha _]. exact Ha.
+Qed.
+
+Lemma arg_value_total a : total (arg_value a).
+Proof. unfold arg_value. destruct (is_cls "Attribute" a); [eexists; reflexivity|apply literal_value_total]. Qed.
+
+Lemma call_args_total c : total (call_args c).
+Proof.
+  unfold call_args. destruct (c_call c); [|eexists; reflexivity].
+  apply mapM_total. apply Forall_forall. intros x _. apply arg_value_total.
+Qed.
+
+Lemma call_keywords_total c : total (call_keywords c).
+Proof.
+  unfold call_keywords. destruct (c_call c) as [call|]; [|eexists; reflexivity].
+  assert (H : total (mapM (fun k => do v <- arg_value (field "value" k);; Ok (kw_arg k, v))
+                          (field_list "keywords" call))).
+  { apply mapM_total. apply Forall_forall. intros k _.
+    destruct (arg_value_total (field "value" k)) as [v Hv]. rewrite Hv. eexists; reflexivity. }
+  destruct H as [l Hl]. rewrite Hl. eexists; reflexivity.
+Qed.
+
+Lemma call_keywords_some c call : c_call c = Some call -> exists l, call_keywords c = Ok (Some l).
+Proof.
+  intro H. destruct (call_keywords_total c) as [r Hr]. unfold call_keywords in *. rewrite H in *.
+  destruct (mapM _ _) as [l|e]; [|discriminate]. eexists; reflexivity.
+Qed.
+
+Lemma get_call_arg_value_total c name : total (get_call_arg_value c name).
+Proof.
+  unfold get_call_arg_value. destruct (call_keywords_total c) as [[l|] Hr]; rewrite Hr; cbn [bind].
+  - destruct (kw_lookup name l); eexists; reflexivity.
+  - eexists; reflexivity.
+Qed.
+
+Lemma get_call_arg_at_position_total c i : total (get_call_arg_at_position c i).
+Proof.
+  unfold get_call_arg_at_position. destruct (c_call c); [|eexists; reflexivity].
+  destruct (Nat.ltb _ _); [|eexists; reflexivity].
+  destruct (_ && _); [eexists; reflexivity|apply literal_value_total].
+Qed.
+
+Lemma check_call_arg_value_total c name vals : total (check_call_arg_value c name vals).
+Proof.
+  unfold check_call_arg_value. destruct (get_call_arg_value_total c name) as [v Hv]. rewrite Hv.
+  destruct v; eexists; reflexivity.
+Qed.
+
+Lemma bind_total {A B} (r : res A) (k : A -> res B) :
+  total r -> (forall a, total (k a)) -> total (bind r k).
+Proof. intros [a ->] H. apply H. Qed.
+
+Lemma ok_total {A} (a : A) : total (Ok a).
+Proof. eexists; reflexivity. Qed.
+
+(* --- B505 --- *)
+
+(* all six thresholds present and numeric (int, or bool counting as 0/1) *)
+Definition numeric_cfg (cfg : jv) : Prop :=
+  forall kt, exists h m, thresholds cfg kt = Ok (h, m) /\ thr_num h <> None /\ thr_num m <> None.
+
+Lemma default_cfg_numeric : numeric_cfg weak_key_default_cfg.
+Proof. intro kt. destruct kt; eexists; eexists; (split; [reflexivity|split; discriminate]). Qed.
+
+Lemma int_thresholds_numeric cfg dh dm rh rm eh em :
+  int_thresholds cfg dh dm rh rm eh em -> numeric_cfg cfg.
+Proof.
+  intros H kt. rewrite (thresholds_int _ _ _ _ _ _ _ kt H). eexists; eexists.
+  split; [reflexivity|split; discriminate].
+Qed.
+
+Lemma classify_total cfg kt k : numeric_cfg cfg -> total (classify_key_size cfg kt k).
+Proof.
+  intro H. unfold classify_key_size. destruct (is_number k) eqn:En; [|apply ok_total].
+  destruct (H kt) as (h & m & Ht & Hh & Hm). rewrite Ht. cbn [bind fst snd]. unfold lt_threshold.
+  destruct (thr_num h) as [zh|]; [|contradiction]. destruct (thr_num m) as [zm|]; [|contradiction].
+  destruct k; try discriminate En; cbn [bind].
+  - destruct (z <? zh)%Z; [apply ok_total|]. cbn [bind]. destruct (z <? zm)%Z; apply ok_total.
+  - destruct (float_ltb_Z r zh); [apply ok_total|]. cbn [bind]. destruct (float_ltb_Z r zm); apply ok_total.
+Qed.
+
+(* a key size that is not a number is never classified -- and never looks at the configuration *)
+Lemma classify_non_number cfg kt k : is_number k = false -> classify_key_size cfg kt k = Ok None.
+Proof. intro H. unfold classify_key_size. rewrite H. reflexivity. Qed.
+
+Lemma key_size_of_total c kw pos : total (key_size_of c kw pos).
+Proof.
+  unfold key_size_of. apply bind_total; [apply get_call_arg_value_total|]. intro a.
+  destruct (truthy a); [apply ok_total|].
+  apply bind_total; [apply get_call_arg_at_position_total|]. intro b. destruct (truthy b); apply ok_total.
+Qed.
+
+Lemma ec_curve_total c : total (ec_curve c).
+Proof.
+  unfold ec_curve. apply bind_total; [apply get_call_arg_value_total|]. intro v.
+  destruct (truthy v); [apply ok_total|].
+  apply bind_total; [apply call_args_total|]. intros [|a l]; apply ok_total.
+Qed.
+
+Theorem weak_key_never_raises_numeric cfg c :
+  numeric_cfg cfg -> total (weak_cryptographic_key c cfg).
+Proof.
+  intro H. unfold weak_cryptographic_key. apply bind_total.
+  - unfold weak_crypto_key_size_cryptography_io.
+    destruct (func_key_type cryptography_io_funcs c) as [[]|]; try apply ok_total.
+    + apply bind_total; [apply key_size_of_total|]. intro k. apply classify_total, H.
+    + apply bind_total; [apply key_size_of_total|]. intro k. apply classify_total, H.
+    + apply bind_total; [apply ec_curve_total|]. intro k. apply classify_total, H.
+  - intros [i|]; [apply ok_total|]. unfold weak_crypto_key_size_pycrypto.
+    destruct (func_key_type pycrypto_funcs c); [|apply ok_total].
+    apply bind_total; [apply key_size_of_total|]. intro ks. apply classify_total, H.
+Qed.
+
+(* under the default configuration B505 returns normally on every context whatsoever *)
+Theorem weak_key_never_raises_default :
+  forall c, exists r, weak_cryptographic_key c weak_key_default_cfg = Ok r.
+Proof. intro c. apply weak_key_never_raises_numeric, default_cfg_numeric. Qed.
+
+Definition weak_cryptographic_key_never_raises := weak_key_never_raises_default.
+
+(* The configuration shapes on which B505 still raises -- each needs a keyed call whose key size is a
+   number (int or float literal, the 2048 default, or any EC call):
+     - the configuration is not a mapping              -> TypeError
+     - one of the six keys is missing                   -> KeyError (even for a call of another key type)
+     - a threshold is not an int/bool (str, None, list) -> TypeError *)
+Example weak_key_still_raises :
+  let c := ex_dsa_ctx 512 in
+  weak_cryptographic_key c (JList [JInt 1024]) = Raise TypeError /\
+  weak_cryptographic_key c (JDict [(s2p "weak_key_size_dsa_high", JInt 1024)]) = Raise KeyError /\
+  weak_cryptographic_key c (JDict [(s2p "weak_key_size_dsa_high", JStr (s2p "1024"));
+                                   (s2p "weak_key_size_dsa_medium", JInt 2048);
+                                   (s2p "weak_key_size_rsa_high", JInt 1024); (s2p "weak_key_size_rsa_medium", JInt 2048);
+                                   (s2p "weak_key_size_ec_high", JInt 160); (s2p "weak_key_size_ec_medium", JInt 224)])
+  = Raise TypeError /\
+  (* ... while a non-numeric key size is now silent even with a broken configuration *)
+  weak_cryptographic_key
+    (ex_ctx [] ex_dsa_q (ex_call (ex_attr (ex_name "dsa") "generate_private_key") []
+                                 [ex_kw "key_size" (Node "List" (ex_pos 1) [("elts", NList [ex_const (CInt 512)]); ("ctx", Node "Load" None [])])]))
+    (JList []) = Ok None.
+Proof. repeat split; reflexivity. Qed.
+
+(* --- B502 / B503 / B504 --- *)
+
+Lemma check_call_arg_cfg_total c name bad : total (check_call_arg_cfg c name bad).
+Proof.
+  unfold check_call_arg_cfg. apply bind_total; [apply get_call_arg_value_total|].
+  intro v. destruct v; apply ok_total.
+Qed.
+
+(* B502 returns normally as soon as the configuration has the key, whatever its value *)
+Theorem ssl_with_bad_version_never_raises_cfg cfg bad c :
+  cfg_item cfg (s2p "bad_protocol_versions") = Ok bad -> total (ssl_with_bad_version c cfg).
+Proof.
+  intro H. unfold ssl_with_bad_version, get_bad_proto_versions. rewrite H. cbn [bind].
+  destruct (qual_is c q_wrap_socket).
+  { apply bind_total; [apply check_call_arg_cfg_total|]. intro r. destruct (is_true r); apply ok_total. }
+  destruct (qual_is c q_ssl_context).
+  { apply bind_total; [apply check_call_arg_cfg_total|]. intro r. destruct (is_true r); apply ok_total. }
+  apply bind_total; [apply check_call_arg_cfg_total|]. intro r1.
+  apply bind_total.
+  - destruct (is_true r1); [apply ok_total|].
+    apply bind_total; [apply check_call_arg_cfg_total|]. intro r2. apply ok_total.
+  - intros []; apply ok_total.
+Qed.
+
+Theorem ssl_with_bad_version_never_raises :
+  forall c, exists r, ssl_with_bad_version c ssl_default_cfg = Ok r.
+Proof. intro c. eapply ssl_with_bad_version_never_raises_cfg. reflexivity. Qed.
+
+(* `val in bad_ssl_versions` needs a container: list, str or mapping *)
+Definition container (bad : jv) : bool :=
+  match bad with JList _ | JStr _ | JDict _ => true | _ => false end.
+
+Lemma first_bad_default_total bad ds : container bad = true -> total (first_bad_default bad ds).
+Proof.
+  intro H. induction ds as [|d t IH]; [apply ok_total|]. cbn [first_bad_default].
+  apply bind_total.
+  - destruct bad; try discriminate H; apply ok_total.
+  - intros []; [apply ok_total|exact IH].
+Qed.
+
+Theorem ssl_with_bad_defaults_never_raises_cfg cfg bad c :
+  cfg_item cfg (s2p "bad_protocol_versions") = Ok bad -> container bad = true ->
+  total (ssl_with_bad_defaults c cfg).
+Proof.
+  intros H Hc. unfold ssl_with_bad_defaults, get_bad_proto_versions. rewrite H. cbn [bind].
+  apply bind_total; [apply first_bad_default_total, Hc|]. intros []; apply ok_total.
+Qed.
+
+Theorem ssl_with_bad_defaults_never_raises :
+  forall c, exists r, ssl_with_bad_defaults c ssl_default_cfg = Ok r.
+Proof. intro c. eapply ssl_with_bad_defaults_never_raises_cfg; reflexivity. Qed.
+
+(* what still raises: no `bad_protocol_versions` key (KeyError, B502 on every call and B503 on every
+   def), a configuration that is not a mapping (TypeError), and for B503 a value that is not a
+   container (int, bool, None: TypeError) as soon as the function has one positional default *)
+Example ssl_still_raises :
+  let f := ex_ctx [] "f" (Node "FunctionDef" (ex_pos 1)
+             [("name", NId (s2p "f"));
+              ("args", Node "arguments" None [("defaults", NList [ex_const (CInt 1)])])]) in
+  ssl_with_bad_version (ex_wrap_ctx []) (JDict []) = Raise KeyError /\
+  ssl_with_bad_version (ex_wrap_ctx []) (JList []) = Raise TypeError /\
+  ssl_with_bad_defaults f (JDict []) = Raise KeyError /\
+  ssl_with_bad_defaults f (JDict [(s2p "bad_protocol_versions", JInt 3)]) = Raise TypeError /\
+  ssl_with_bad_version (ex_wrap_ctx []) (JDict [(s2p "bad_protocol_versions", JInt 3)]) = Ok None.
+Proof. repeat split; reflexivity. Qed.
+
+Theorem ssl_with_no_version_never_raises : forall c, exists r, ssl_with_no_version c = Ok r.
+Proof.
+  intro c. unfold ssl_with_no_version. destruct (qual_is c q_wrap_socket); [|apply ok_total].
+  apply bind_total; [apply check_call_arg_value_total|]. intro r. destruct (is_none r); apply ok_total.
+Qed.
+
+(* --- B501 / B113: total on every context with a qualified name (every Call context has one) --- *)
+
+Theorem request_with_no_cert_validation_never_raises :
+  forall c q, c_qualname c = Some q -> exists r, request_with_no_cert_validation c = Ok r.
+Proof.
+  intros c q Hq. unfold request_with_no_cert_validation, qual_head. rewrite Hq. cbn [bind].
+  destruct (_ || _); [|apply ok_total].
+  apply bind_total; [apply check_call_arg_value_total|]. intro r. destruct (is_true r); apply ok_total.
+Qed.
+
+Theorem request_without_timeout_never_raises :
+  forall c q, c_qualname c = Some q -> exists r, request_without_timeout c = Ok r.
+Proof.
+  intros c q Hq. unfold request_without_timeout, qual_head. rewrite Hq. cbn [bind].
+  apply bind_total.
+  - destruct (is_requests_call c _); [|apply ok_total].
+    apply bind_total; [apply check_call_arg_value_total|]. intro r. apply ok_total.
+  - intros []; [apply ok_total|]. destruct (_ || _); [|apply ok_total].
+    apply bind_total; [apply check_call_arg_value_total|]. intro r. destruct (is_true r); apply ok_total.
+Qed.
+
+(* --- B324: total on every context that has a call and a positioned node --- *)
+
+Lemma report_weak_hash_total c kws l name :
+  lineno_of (c_node c) = Some l -> total (report_weak_hash c (Some kws) name).
+Proof. intro Hl. rewrite (report_weak_hash_eq c kws l name Hl). apply ok_total. Qed.
+
+Lemma report_weak_crypt_total c l name :
+  lineno_of (c_node c) = Some l -> total (report_weak_crypt c name).
+Proof.
+  intro Hl. unfold report_weak_crypt, node_lineno. rewrite Hl.
+  destruct name; try apply ok_total. destruct (mem_pstr s weak_crypt_hashes); apply ok_total.
+Qed.
+
+Theorem hashlib_never_raises :
+  forall c call l, c_call c = Some call -> lineno_of (c_node c) = Some l -> exists r, hashlib c = Ok r.
+Proof.
+  intros c call l Hc Hl. unfold hashlib. destruct (c_qualname c) as [q|]; [|apply ok_total]. cbn zeta.
+  destruct (call_keywords_some c call Hc) as [kws Hk].
+  destruct (mem_pstr (s2p "hashlib") (split_on dot q)).
+  - unfold hashlib_func. rewrite Hk. cbn [bind].
+    destruct (mem_pstr _ weak_hashes); [eapply report_weak_hash_total, Hl|].
+    destruct (pstr_eqb _ (s2p "new")); [|apply ok_total].
+    apply bind_total; [apply call_args_total|]. intro args.
+    apply bind_total; [destruct args; apply ok_total|]. intro name.
+    destruct name; try apply ok_total.
+    destruct (mem_pstr (lower s) weak_hashes); [eapply report_weak_hash_total, Hl|apply ok_total].
+  - destruct (_ && _); [|apply ok_total]. unfold crypt_crypt.
+    apply bind_total; [apply call_args_total|]. intro args. rewrite Hk. cbn [bind].
+    destruct (pstr_eqb _ (s2p "crypt")).
+    { apply bind_total; [destruct args as [|? [|? ?]]; apply ok_total|]. intro n. eapply report_weak_crypt_total, Hl. }
+    destruct (pstr_eqb _ (s2p "mksalt")); [|apply ok_total].
+    apply bind_total; [destruct args; apply ok_total|]. intro n. eapply report_weak_crypt_total, Hl.
+Qed.
+
+(* --- B507: total on every context whose node has an `args` field (every Call node) --- *)
+
+Theorem ssh_no_host_key_verification_never_raises :
+  forall c a, field_opt "args" (c_node c) = Some a -> exists r, ssh_no_host_key_verification c = Ok r.
+Proof.
+  intros c a Ha. unfold ssh_no_host_key_verification. destruct (_ && _); [|apply ok_total].
+  rewrite Ha. destruct (items a) as [|x t]; [apply ok_total|].
+  destruct (policy_argument_value x) as [v|]; [|apply ok_total].
+  destruct (mem_pstr v bad_policies); apply ok_total.
+Qed.
+
+(* --- B508 total everywhere; B509 on every context with a call --- *)
+
+Theorem snmp_insecure_version_check_never_raises :
+  forall c, exists r, snmp_insecure_version_check c = Ok r.
+Proof.
+  intro c. unfold snmp_insecure_version_check. destruct (qual_is c q_community_data); [|apply ok_total].
+  assert (Hc : forall z, total (check_call_arg_int c (s2p "mpModel") z)).
+  { intro z. unfold check_call_arg_int. apply bind_total; [apply get_call_arg_value_total|].
+    intro v. destruct v; apply ok_total. }
+  apply bind_total; [apply Hc|]. intro r0. apply bind_total.
+  - destruct (is_true r0); [apply ok_total|]. apply bind_total; [apply Hc|]. intro r1. apply ok_total.
+  - intros []; apply ok_total.
+Qed.
+
+Theorem snmp_crypto_check_never_raises :
+  forall c call, c_call c = Some call -> exists r, snmp_crypto_check c = Ok r.
+Proof.
+  intros c call Hc. unfold snmp_crypto_check. destruct (qual_is c q_usm_user_data); [|apply ok_total].
+  unfold call_args_count. rewrite Hc. destruct (Nat.ltb _ 3); apply ok_total.
+Qed.
+
+(* The side conditions above hold in every context the visitor hands to a Call check: *)
+Definition visitor_call_ctx (c : ctx) : Prop :=
+  c_call c = Some (c_node c) /\ (exists q, c_qualname c = Some q) /\
+  (exists l, lineno_of (c_node c) = Some l) /\ (exists a, field_opt "args" (c_node c) = Some a).
+
+Lemma ctx_set_call_shape c q :
+  c_call (Visitor.ctx_set_call c (c_node c) q) = Some (c_node (Visitor.ctx_set_call c (c_node c) q)) /\
+  c_qualname (Visitor.ctx_set_call c (c_node c) q) = Some q.
+Proof. split; reflexivity. Qed.
+
+(* all Call checks of the family are total under the default configuration *)
+Theorem crypto_call_checks_never_raise c :
+  visitor_call_ctx c ->
+  total (hashlib c) /\ total (weak_cryptographic_key c weak_key_default_cfg) /\
+  total (ssl_with_bad_version c ssl_default_cfg) /\ total (ssl_with_no_version c) /\
+  total (request_with_no_cert_validation c) /\ total (request_without_timeout c) /\
+  total (ssh_no_host_key_verification c) /\ total (snmp_insecure_version_check c) /\
+  total (snmp_crypto_check c).
+Proof.
+  intros (Hc & [q Hq] & [l Hl] & [a Ha]). repeat split.
+  - eapply hashlib_never_raises; eassumption.
+  - apply weak_key_never_raises_default.
+  - apply ssl_with_bad_version_never_raises.
+  - apply ssl_with_no_version_never_raises.
+  - eapply request_with_no_cert_validation_never_raises; eassumption.
+  - eapply request_without_timeout_never_raises; eassumption.
+  - eapply ssh_no_host_key_verification_never_raises; eassumption.
+  - apply snmp_insecure_version_check_never_raises.
+  - eapply snmp_crypto_check_never_raises; eassumption.
+Qed.
+
+Example visitor_call_ctx_ex : visitor_call_ctx ex_md5_ctx.
+Proof. repeat split; eexists; reflexivity. Qed.
+
+(* outside such contexts the attribute accesses do raise: a context without a call *)
+Example no_call_context_raises :
+  let c := Ctx NNone [] NNone [] [] None None None [] None (Some (s2p "hashlib.md5")) (Some (s2p "md5"))
+               None None None None (s2p "t.py") None in
+  hashlib c = Raise AttributeError /\
+  snmp_crypto_check (Ctx NNone [] NNone [] [] None None None [] None (Some q_usm_user_data) None
+                         None None None None (s2p "t.py") None) = Raise TypeError /\
+  request_without_timeout (Ctx NNone [] NNone [] [] None None None [] None None None
+                               None None None None (s2p "t.py") None) = Raise AttributeError.
 Proof. repeat split; reflexivity. Qed.
